@@ -91,7 +91,7 @@ pub fn run(ctx: &Ctx) -> i32 {
     let per_shard = ctx.tier.pick(8, 300);
     let r_lib = ctx.tier.pick(12, 48);
     let r_cli = ctx.tier.pick(3, 12);
-    let acc = run_sharded(ctx.jobs, |shard| {
+    let acc = run_sharded(ctx, |shard| {
         let mut acc = Acc::new();
         for k in 0..per_shard {
             let mut rng = Rng::derive(ctx.seed, 10_000 + shard as u64, k as u64);
